@@ -1,7 +1,7 @@
 """Adaptor of hypergraphx.Hypergraph for the history explorer: ghost = (set of nodes, map frozenset -> [weight, metadata],
 map node -> metadata), written from the statement of C01."""
 import copy
-from .containers import Reject, UNKNOWN, msort, tuplify
+from .containers import Reject, Unspecified, UNKNOWN, msort, tuplify
 
 FILTERS = [dict()] + [dict(order=o) for o in range(0, 4)] + [dict(size=s) for s in range(1, 5)]
 UPTO = [dict(order=o, up_to=True) for o in range(0, 4)] + [dict(size=s, up_to=True) for s in range(1, 5)]
@@ -173,18 +173,20 @@ class HypergraphAdaptor:
         elif name == "del_attr_node":
             if a[0] not in g.V:
                 raise Reject()
-            if g.NM[a[0]] != UNKNOWN:
-                if a[1] not in g.NM[a[0]]:
-                    raise Reject()
-                del g.NM[a[0]][a[1]]
+            if g.NM[a[0]] == UNKNOWN:
+                raise Unspecified()
+            if a[1] not in g.NM[a[0]]:
+                raise Reject()
+            del g.NM[a[0]][a[1]]
         elif name == "del_attr_edge":
             k = frozenset(a[0])
             if k not in g.E:
                 raise Reject()
-            if g.E[k][1] != UNKNOWN:
-                if a[1] not in g.E[k][1]:
-                    raise Reject()
-                del g.E[k][1][a[1]]
+            if g.E[k][1] == UNKNOWN:
+                raise Unspecified()
+            if a[1] not in g.E[k][1]:
+                raise Reject()
+            del g.E[k][1][a[1]]
         elif name == "clear":
             g.V.clear(), g.E.clear(), g.NM.clear()
         elif name == "copy":
